@@ -22,7 +22,11 @@ META = {
             "pest_meta reads (and, when the C05 development builds, proves in Coq that the Gallina optimizer maps one to the printed "
             "optimized rules); runs pest_meta::parser::parse against pest_vm on parse_and_optimize(grammar.pest) and against the extracted "
             "model on the shipped .pest files, generated grammars, mutated/truncated grammars and short fragments, comparing acceptance, "
-            "token forest and error; the token stream the in-tree derive_parser returns for grammar.pest is compiled as source on every run and is the "
+            "token forest and error; the checked-in parser is run through its public entry pest_meta::parser::parse and through the generated PestParser::parse "
+            "it wraps (any transformation of the text, the spans or the error in between is a disagreement; so is a token tree that refers to another input "
+            "than the caller's), top-rule texts also through pest_meta::parse_and_optimize; the texts put the characters such a layer typically strips or "
+            "normalises (byte order mark, line-break conventions, NUL, Unicode blanks, characters of every UTF-8 width) around and inside spellings of every rule; "
+            "the token stream the in-tree derive_parser returns for grammar.pest is compiled as source on every run and is the "
             "third leg of every comparison (thorough also compiles a #[derive(Parser)] of grammar.pest as a fourth). When a structural stage or the proof "
             "breaks without a failing text, the rules pinpointed (token-level function diff of the regenerated grammar.rs, DIFF lines of the closure "
             "comparison) are searched: spellings of the rule derived from the grammar (every alternative, every repetition count from min-1 to max+1), "
@@ -275,12 +279,12 @@ def run(tier, seed, replay=None):
             search = {"rules": names, "pinpointed": not light, "texts": s2.get("cases", 0), "compared_with_fresh_parser": s2.get("fresh_compared", 0),
                       "disagreements": s2.get("spec_differences", 0), "stages": "; ".join(stages)[:3000], "wall_s": round(time.time() - t0, 1)}
             log("C14: targeted search on the %s %s: %d (rule, text) cases on the checked-in parser, pest_vm and %s (spellings of each rule at every repetition count and "
-                "alternative, embedded in every calling rule, trivia at every position%s), %d disagreements (%.0fs)" % (
+                "alternative, embedded in every calling rule, trivia at every position, strippable / normalisable characters around and inside%s), %d disagreements (%.0fs)" % (
                     "differing rules" if not light else "rules (nothing pinpointed)", ", ".join(names[:12]) + (" .." if len(names) > 12 else ""), s2.get("cases", 0),
                     "the fresh parser" if gen_exe else "NO fresh parser", "" if light else ", all strings up to length %d over the rules' literal alphabet" % tl,
                     s2.get("spec_differences", 0), time.time() - t0))
             mism += [m for m in m2 if m["kind"] in ("spec", "harness")]
-            for k in ("cases", "evaluations", "distinct_nontrivial", "spec_differences", "fresh_compared"):
+            for k in ("cases", "evaluations", "distinct_nontrivial", "spec_differences", "fresh_compared", "entry_vs_generated", "parse_and_optimize_vs_vm"):
                 stats[k] = stats.get(k, 0) + s2.get(k, 0)
 
     # texts on which only the fresh parser ran into its call limit: reported (with the text) when nothing else was found, after a re-run
@@ -303,7 +307,9 @@ def run(tier, seed, replay=None):
     other_m = [m for m in mism if m["kind"] not in ("spec", "model", "read")]
     if spec_m:
         spec_found = True
-        worst = min(spec_m, key=lambda m: len(m["case"]))
+        # the shortest text; a disagreement on the token forest / the error position and sets before one that shows only in what the result says
+        # about the text (identity of the token tree's input, line and line/column of the error: after " ## ")
+        worst = min(spec_m, key=lambda m: (m["impl"].split(" ## ")[0] == m["expected"].split(" ## ")[0], len(m["case"])))
         m = re.match(r"r=(\S+) in=(\S+) against=(\S+)", worst["case"])
         rule, inp, against = (m.group(1), m.group(2), m.group(3)) if m else ("", "", "")
         try:
@@ -312,6 +318,13 @@ def run(tier, seed, replay=None):
             shown = inp
         if worst["case"] == "grammar.pest":
             res.violation("%s" % worst["impl"][:400], {"theorem_or_correspondence": "C14: the checked-in parser on its own grammar file", "case": worst["case"], "impl": worst["impl"]})
+        elif " entry=" in worst["case"]:
+            entry = worst["case"].split(" entry=")[-1]
+            res.violation("the public entry %s of the checked-in grammar parser and %s disagree: rule %s on text %r: `%s` vs `%s` (%d disagreeing cases in this run)" % (
+                              entry, against_name(worst["case"]), rule, shown[:200], worst["impl"][:200], worst["expected"][:200], stats.get("spec_differences", len(spec_m))),
+                          {"theorem_or_correspondence": "C14 oracle: the public entries of the checked-in parser (pest_meta::parser::parse, parse_and_optimize) vs the generated "
+                                                        "PestParser they wrap vs pest_vm (real code)", "case": worst["case"],
+                           "rule": rule, "input": inp, "impl": worst["impl"], "other": worst["expected"]})
         else:
             res.violation("the checked-in grammar parser and %s disagree: rule %s on text %r: checked-in `%s` vs `%s` (%d disagreeing cases in this run)" % (
                               against_name(worst["case"]), rule, shown[:200], worst["impl"][:200],
@@ -372,16 +385,25 @@ def run(tier, seed, replay=None):
         "evaluations": stats.get("evaluations", 0),
         "distinct_nontrivial": stats.get("distinct_nontrivial", 0),
         "rule": "texts: every .pest file shipped in the repository, generated grammars in concrete syntax, 1-3 character-level mutations / truncations / duplications of "
-                "them (windows of 300 chars), all strings of length <= 2 over 12 meta characters and 35 fragments (+ one mutation each) fed to EVERY rule of the "
-                "meta-grammar, random strings of length 3-10; one evaluation = one (rule, text); non-trivial = a parse producing tokens or failing past position 0",
+                "them (windows of 300 chars; one mutation in five inserts a strippable / normalisable character at the start, the end or inside), all strings of "
+                "length <= 2 over 12 meta characters and 35 fragments (+ one mutation each) fed to EVERY rule of the "
+                "meta-grammar, random strings of length 3-10; 24 characters and sequences a layer in front of a parser typically strips, normalises or treats as blank "
+                "(U+FEFF, CRLF / LF / CR, NUL, TAB, NBSP, NEL, LS, PS, ZWSP, ideographic space, FF, ^Z, DEL, U+FFFE, a combining mark, fullwidth brace, Kelvin sign, "
+                "characters of 2, 3 and 4 UTF-8 bytes, U+10FFFF): each alone, in front of (also doubled, with a blank before / after), behind and inside a shortest "
+                "spelling of EVERY rule, fed to that rule, and in front of / behind / inside the shipped and the generated grammars, fed to the top rule (%d such texts); "
+                "one evaluation = one (rule, text); non-trivial = a parse producing tokens or failing past position 0" % stats.get("entry_char_texts", 0),
         "exhaustive": False,
         "samples": ["grammar_rules on meta/src/grammar.pest", "string on \"\\\"a\\\"\"", "expression on `a ~ b | c`"],
         "runner_cases": stats.get("cases", 0),
         "mismatches": len(mism),
         "regeneration": "identical" if regen_ok else "different",
-        "legs": "every text: checked-in parser (pest_meta::parser::parse), pest_vm on parse_and_optimize(grammar.pest)" + (
+        "legs": "every text: checked-in parser through its public entry pest_meta::parser::parse AND through the generated PestParser::parse the entry wraps "
+                "(forest / error, identity of the input the token tree refers to, line and line/column of the error), pest_vm on parse_and_optimize(grammar.pest); "
+                "top-rule texts also pest_meta::parse_and_optimize (a parse error iff pest_vm has one, the same one)" + (
                     ", the in-tree derive_parser output for grammar.pest compiled as source" if gen_exe else " (NO freshly generated parser: it could not be built)") + (
                     ", a compiled #[derive(Parser)] of grammar.pest" if fresh else "") + "; texts of at most %d bytes also the extracted model" % maxmodel,
+        "entry_vs_generated_parser_comparisons": stats.get("entry_vs_generated", 0),
+        "parse_and_optimize_vs_vm_comparisons": stats.get("parse_and_optimize_vs_vm", 0),
         "fresh_parser_comparisons": stats.get("fresh_compared", 0),
         "fresh_parser_call_limit_hits": stats.get("fresh_limited", 0),
         "targeted_search": search if search else "not run (no structural / proof / correspondence break, or a failing text was already found)",
@@ -393,6 +415,7 @@ def run(tier, seed, replay=None):
 
 
 FRESH_NAMES = {"vm": "pest_vm on parse_and_optimize(grammar.pest)",
+               "direct": "the generated PestParser::parse of meta/src/grammar.rs that it wraps (same text, called directly)",
                "fresh": "a parser freshly generated from grammar.pest by the in-tree generator (derive_parser output compiled as source)",
                "fresh-derive": "a freshly compiled #[derive(Parser)] of grammar.pest"}
 
